@@ -31,6 +31,8 @@ FAMILY_RULES = {
     "compound": {"remove_compound_assignment", "remove_floor_division", "remove_types", "remove_interpolated_string", "remove_if_expression"},
     "method": {"remove_method_call", "remove_method_definition"},
     "removed": {"remove_assertions", "remove_debug_profiling"},
+    "shadow16": {"convert_square_root_call"},
+    "shadow17": {"remove_assertions", "remove_debug_profiling", "inject_global_value"},
     "scope": {"remove_unused_variable", "rename_variables", "remove_nil_declaration", "group_local_assignment", "convert_local_function_to_assign",
               "convert_function_to_assignment", "remove_method_definition", "remove_method_call", "convert_square_root_call"},
 }
